@@ -82,6 +82,18 @@ class CFG:
             self.succ[a].append((b, label))
             self.pred[b].append((a, label))
 
+    def _raises(self, node: ast.AST, ctx) -> bool:
+        """may the evaluation of `node` raise?  By default calls (and raise / assert) do.  Directly inside the body of a
+        `try` that has handlers the author says more can: a subscript, an attribute read, arithmetic, an import or an
+        unpacking there gets its exception edge to the handlers as well (`try: x = d[k]` / `except KeyError:`)."""
+        if self.may_raise(node):
+            return True
+        if ctx.get("in_try") and self.may_raise is _may_raise_default:
+            for n in [node, *walk_local(node)]:
+                if isinstance(n, (ast.Subscript, ast.Attribute, ast.BinOp, ast.Import, ast.ImportFrom, ast.Starred, ast.Tuple, ast.Delete, ast.UnaryOp)):
+                    return True
+        return False
+
     def _build_block(self, stmts: List[ast.stmt], succ: int, ctx) -> int:
         for st in reversed(stmts):
             succ = self._build_stmt(st, succ, ctx)
@@ -93,7 +105,7 @@ class CFG:
             kind = "cond"  # only names a condition (see _named_conditions)
         n = self._new(kind, st)
         self._edge(n.id, succ, "")
-        if self.may_raise(st):
+        if self._raises(st, ctx):
             self._edge(n.id, ctx["exc"], "exc")
         return n.id
 
@@ -163,7 +175,7 @@ class CFG:
         n = self._new("test", expr)
         self._edge(n.id, t, "true")
         self._edge(n.id, f, "false")
-        if self.may_raise(expr):
+        if self._raises(expr, ctx):
             self._edge(n.id, ctx["exc"], "exc")
         return n.id
 
@@ -182,7 +194,7 @@ class CFG:
             return head.id
         if isinstance(st, (ast.For, ast.AsyncFor)):
             it = self._new("stmt", st.iter, "iter")
-            if self.may_raise(st.iter):
+            if self._raises(st.iter, ctx):
                 self._edge(it.id, ctx["exc"], "exc")
             head = self._new("loop", st, "for")
             self._edge(it.id, head.id, "")
@@ -205,7 +217,7 @@ class CFG:
         if isinstance(st, ast.Return):
             n = self._new("stmt", st)
             self._edge(n.id, ctx["ret"], "return")
-            if st.value is not None and self.may_raise(st.value):
+            if st.value is not None and self._raises(st.value, ctx):
                 self._edge(n.id, ctx["exc"], "exc")
             return n.id
         if isinstance(st, ast.Raise):
@@ -222,7 +234,7 @@ class CFG:
             return n.id
         if hasattr(ast, "Match") and isinstance(st, ast.Match):
             n = self._new("stmt", st.subject, "match")
-            if self.may_raise(st.subject):
+            if self._raises(st.subject, ctx):
                 self._edge(n.id, ctx["exc"], "exc")
             for case in st.cases:
                 b = self._build_block(case.body, succ, ctx)
@@ -256,6 +268,7 @@ class CFG:
             "ret": fin("ret", ctx["ret"]),
             "brk": fin("brk", ctx["brk"]),
             "cont": fin("cont", ctx["cont"]),
+            "in_try": ctx.get("in_try", False),
         }
         after = fin("normal", succ)
         if st.handlers:
@@ -275,7 +288,7 @@ class CFG:
         else:
             body_exc = inner["exc"]
         o = self._build_block(st.orelse, after, inner) if st.orelse else after
-        bctx = dict(inner, exc=body_exc)
+        bctx = dict(inner, exc=body_exc, in_try=bool(st.handlers))
         return self._build_block(st.body, o, bctx)
 
     # ---- lookup
